@@ -20,9 +20,14 @@ def small_specs(ctx, n):
         i += 1
         kind = i % 4
         if kind == 0:
-            m = gen.rand_model(rng, {**SMALL, "T": [2, 3]})
+            # every other affine pair on a model with dead-end states (no feasible choice: value -inf, which the law maps to -inf)
+            dead = (i // 4) % 2 == 1
+            prof = {**SMALL, "T": [2, 3]}
+            if dead:
+                prof.update(p_infeasible_last=1.0, p_w=1.0, p_c=1.0, p_nobind=0.0)
+            m = gen.rand_model(rng, prof)
             mm, a, b = laws.affine(rng, m)
-            specs.append(mk_pair(len(specs), "affine", m, mm, a=a, b=b, label="small"))
+            specs.append(mk_pair(len(specs), "affine", m, mm, a=a, b=b, label="small" + ("; dead-end states" if dead else "")))
         elif kind == 1:
             m = laws.with_beta(gen.rand_model(rng, {**SMALL, "T": [2, 3, 4]}), 0)
             t = rng.randrange(m["T"] - 1)
